@@ -252,3 +252,49 @@ def no_memoisation_modules(ctx, R, modules, why):
         return bad
     return [ctx.ok(R, None, None, f"{len(quals)} functions of {', '.join(sorted(modules))}: none is memoised and none stores results in module-level containers",
                    construct="memo|" + ",".join(sorted(modules)))]
+
+
+def nested_builder(ctx, R, q="signac._utility:_dotted_dict_to_nested_dicts"):
+    """The dotted-key -> nested-dict helper merges into existing sub-mappings, keeps every value (None included) and never stores a
+    recursively built sub-mapping wholesale (which would overwrite siblings under a common prefix)."""
+    out = []
+    fi = ctx.prog.funcs.get(q)
+    if fi is None:
+        return [ctx.inc(R, None, None, f"{q} not found", construct=q + "|shape")]
+    desc = [c for c in body_nodes(fi) if isinstance(c, ast.Call) and isinstance(c.func, ast.Attribute) and c.func.attr == "setdefault"]
+    rec_store = []
+    for n in body_nodes(fi):
+        if isinstance(n, ast.Assign) and isinstance(n.value, ast.Call) and q in common.targets_of(ctx, fi, n.value) and any(isinstance(t, ast.Subscript) for t in n.targets):
+            rec_store.append(n)
+        if isinstance(n, ast.Call) and isinstance(n.func, ast.Attribute) and n.func.attr == "update" and n.args \
+                and any(isinstance(x, ast.Call) and q in common.targets_of(ctx, fi, x) for x in ast.walk(n.args[0])):
+            rec_store.append(n)
+        if isinstance(n, ast.Call) and isinstance(n.func, ast.Attribute) and n.func.attr == "update" and n.args and isinstance(n.args[0], ast.Name):
+            d = common.reaching_def(ctx, fi, n.args[0].id, n)
+            if d is not None and any(isinstance(x, ast.Call) and q in common.targets_of(ctx, fi, x) for x in ast.walk(d)):
+                rec_store.append(n)
+    k = q + "|merge"
+    if rec_store:
+        out.append(ctx.viol(R, fi, rec_store[0], f"`{stmt_key(rec_store[0], 50)}` stores a recursively built sub-mapping wholesale: two dotted keys that share a prefix of two or more levels "
+                            "('c.x.a', 'c.x.b') overwrite each other, so nested state points lose keys", construct=k))
+    elif desc:
+        out.append(ctx.ok(R, fi, desc[0], "sub-mappings are created with setdefault and extended in place: keys sharing a prefix are merged", construct=k))
+    else:
+        out.append(ctx.inc(R, fi, fi.node, "nested-dict construction shape not recognised", construct=k))
+    # no filtering by value
+    stores = [n for n in body_nodes(fi) if isinstance(n, ast.Assign) and any(isinstance(t, ast.Subscript) for t in n.targets) and "value" in names_in(n.value)]
+    k2 = q + "|keeps-all-values"
+    cond = []
+    for s in stores:
+        facts = common.facts_at(ctx, fi, s, "n")
+        cond += [f for f in facts if f[0].replace(" ", "") in ("value", "valueisNone") or "value is" in f[0] or f[0] == "not value"]
+    conts = [n for n in body_nodes(fi) if isinstance(n, ast.Continue)]
+    for c in conts:
+        facts = common.facts_at(ctx, fi, c, "n")
+        cond += [f for f in facts if "value" in f[0]]
+    if cond:
+        out.append(ctx.viol(R, fi, (stores or conts)[0], f"entries are kept or dropped depending on their value ({cond[0]}): a key whose value is None / falsy vanishes, so a diff merged with the "
+                            "common part no longer reconstructs the state point", construct=k2))
+    else:
+        out.append(ctx.ok(R, fi, fi.node, "every (key, value) pair is stored, whatever the value", construct=k2))
+    return out
